@@ -227,7 +227,9 @@ Fixpoint skip_pass (cp : nat) (es : list expr) (s : st) : option (bool * st) :=
     | Done s1 =>
       if always e then
         if negb (Nat.eqb (pos s1) cp) then Some (true, s1) else skip_pass cp es' s1
-      else if status s1 then Some (true, s1)
+      else if status s1 then
+        (* an item that matched without consuming has skipped nothing: go on with the next item *)
+        if negb (Nat.eqb (pos s1) cp) then Some (true, s1) else skip_pass cp es' s1
       else skip_pass cp es' (if partial e then upd s1 (status s1) (result s1) cp else s1)
     end
   end.
